@@ -67,7 +67,7 @@ def modKey (level : Nat) (m : String) : List Nat :=
   let cs := m.toList.map lowerA
   natKey ('B' :: (if level = 0 then cs else List.replicate level '.' ++ '_' :: cs))
 
-def nameLe (a b : Name) : Bool := decide (nameKey a ≤ nameKey b)
+def nameLe (a b : Name) : Bool := lexLe Nat.ble (nameKey a) (nameKey b)
 
 def dedupFirst : List Name → List Name
   | [] => []
@@ -90,9 +90,8 @@ def namesOf (m : String) (stmts : List ImportFrom) : List Name :=
 abbrev Summary := List (String × List Name)
 
 def summary (keep : Name → Bool) (stmts : List ImportFrom) : Summary :=
-  let stmts := stmts.map (fun s => { s with names := s.names.filter keep })
-  let mods := pySorted (dedupFirst ((stmts.filter (fun s => !s.names.isEmpty)).map modStr))
-  mods.map (fun m => (m, isortNames (namesOf m stmts)))
+  let mods := pySorted (dedupFirst (stmts.map modStr))
+  mods.map (fun m => (m, isortNames ((namesOf m stmts).filter keep)))
 
 /-- trigger of finding C10-F2: two distinct names imported from one module tie on isort's key -/
 def nameTie (ns : List Name) : Bool :=
